@@ -64,6 +64,81 @@ def gen_tt(rng):
     return rows
 
 
+def gen_dc(rng):
+    """a table with don't-cares ('*'): related outputs, wholly undefined outputs, don't-cares in the first column"""
+    n = rng.choice([2, 2, 2, 3])
+    m = rng.choice([1, 2, 2, 3, 3]) if n == 2 else rng.choice([1, 1, 2, 3])
+    rows = [[rng.choice('01') for _ in range(1 << n)] for _ in range(m)]
+    # related outputs: copies and complements of the first one, so that several completions share a normal form
+    for i in range(1, m):
+        k = rng.random()
+        if k < 0.25:
+            rows[i] = list(rows[0])
+        elif k < 0.5:
+            rows[i] = ['1' if ch == '0' else '0' for ch in rows[0]]
+    npos = rng.randint(1, 4 if n == 2 else 3)
+    pos = []
+    if m >= 2 and n == 2 and rng.random() < 0.2:
+        i = rng.randrange(m)
+        pos = [(i, j) for j in range(1 << n)]          # a wholly undefined output
+        for (_, j) in pos:
+            rows[i][j] = '*'
+    for _ in range(npos):
+        i, j = rng.randrange(m), (0 if rng.random() < 0.35 else rng.randrange(1 << n))
+        if (i, j) not in pos and len(pos) < 6:
+            pos.append((i, j))
+            rows[i][j] = '*'
+    return [''.join(r) for r in rows], pos
+
+
+def dc_correspondence(ctx, dbs):
+    """get_by_raw_truth_table_model against the Lean model: the tables it looks up, in order (`completions`),
+    and which of the circuits found it returns (`lookupDC`: the first one of the least size)"""
+    from cirbo.core.logic import DontCare
+    from cirbo.core.circuit import gate as G
+    rng = ctx.rng('corr-dc')
+    reqs_c, reqs_l, code_c, code_l = [], [], [], []
+    for name, db in dbs.items():
+        for k in range(ctx.scale(150, 2500)):
+            tt, _ = gen_dc(rng)
+            if rng.random() < 0.05:
+                tt = [r.replace('*', rng.choice('01')) for r in tt]       # no don't-care at all
+            excl = rng.choice([None, None, [G.NOT], [G.NOT, G.AND]])
+            ctx.case(json.dumps(['dcc', name, tt, [g.name for g in excl] if excl else None]))
+            ctx.count('dc_positions=%d' % sum(r.count('*') for r in tt))
+            model = [[DontCare if ch == '*' else ch == '1' for ch in r] for r in tt]
+            calls = []
+            orig = db.get_by_raw_truth_table
+
+            def rec(t, _orig=orig, _calls=calls):
+                seen = [''.join('1' if x else '0' for x in r) for r in t]
+                c = _orig(t)
+                _calls.append((seen, c))
+                return c
+            db.get_by_raw_truth_table = rec
+            try:
+                res = db.get_by_raw_truth_table_model(model, excl)
+            except Exception as e:  # noqa: BLE001
+                ctx.count('dc_raises:' + err_name(e))
+                continue
+            finally:
+                del db.get_by_raw_truth_table
+            reqs_c.append({'op': 'completions', 'tt': tt})
+            code_c.append({'ok': [c[0] for c in calls]})
+            found = [None if c is None else c.gates_number(excl) for (_, c) in calls]
+            chosen = [i for i, (_, c) in enumerate(calls) if c is not None and c is res]
+            reqs_l.append({'op': 'lookup_dc', 'tt': tt, 'found': found})
+            code_l.append({'ok': chosen[0] if chosen else None} if (res is None) == (not chosen)
+                          else {'err': 'result is none of the circuits found'})
+    for what, reqs, code in (('dc_completions', reqs_c, code_c), ('dc_choice', reqs_l, code_l)):
+        model = ctx.driver.ask_many(reqs)
+        for r, a, b in zip(reqs, code, model):
+            if a == b:
+                ctx.count('agree:' + what)
+            else:
+                ctx.mismatch(what, r, a, b)
+
+
 def open_dbs():
     from cirbo.circuits_db.db import CircuitsDatabase
     from cirbo.circuits_db.data_utils import DEFAULT_AIG_DB_PATH, DEFAULT_XAIG_DB_PATH
@@ -145,6 +220,7 @@ def correspondence(ctx):
                 ctx.mismatch('db_wf:' + name, {'key': k}, 'well formed', w)
                 continue
             ctx.count('agree:db_entry:' + name)
+    dc_correspondence(ctx, dbs)
 
 
 def pick_keys(ctx, rng, db, k):
@@ -256,29 +332,7 @@ def search(ctx):
     from cirbo.core.logic import DontCare
     for name, db in dbs.items():
         for k in range(ctx.scale(400, 6000)):
-            n = rng.choice([2, 2, 2, 3])
-            m = rng.choice([1, 2, 2, 3, 3]) if n == 2 else rng.choice([1, 1, 2, 3])
-            rows = [[rng.choice('01') for _ in range(1 << n)] for _ in range(m)]
-            # related outputs: copies and complements of the first one, so that several completions share a normal form
-            for i in range(1, m):
-                k = rng.random()
-                if k < 0.25:
-                    rows[i] = list(rows[0])
-                elif k < 0.5:
-                    rows[i] = ['1' if ch == '0' else '0' for ch in rows[0]]
-            npos = rng.randint(1, 4 if n == 2 else 3)
-            pos = []
-            if m >= 2 and n == 2 and rng.random() < 0.2:
-                i = rng.randrange(m)
-                pos = [(i, j) for j in range(1 << n)]          # a wholly undefined output
-                for (_, j) in pos:
-                    rows[i][j] = '*'
-            for _ in range(npos):
-                i, j = rng.randrange(m), (0 if rng.random() < 0.35 else rng.randrange(1 << n))
-                if (i, j) not in pos and len(pos) < 6:
-                    pos.append((i, j))
-                    rows[i][j] = '*'
-            tt = [''.join(r) for r in rows]
+            tt, pos = gen_dc(rng)
             ctx.case(json.dumps(['dc', name, tt]))
             model = [[DontCare if ch == '*' else ch == '1' for ch in r] for r in tt]
             try:
